@@ -48,6 +48,9 @@ type connScn struct {
 	// and may close it from their own goroutines from then on, i.e. also while netpoll registers it.
 	EarlyClose bool   `json:"early_close,omitempty"`
 	Detach     bool   `json:"detach,omitempty"`
+	// Sweeper: a goroutine doing what server.Close (Shutdown) does to every tracked connection: up to
+	// Sweeper passes of "if conn.isIdle() { conn.Close() }"
+	Sweeper    int    `json:"sweeper,omitempty"`
 	Observer   bool   `json:"observer,omitempty"`
 	LateSetReq bool   `json:"late_set_request,omitempty"`
 	direct     string // fixed schedule of a known finding's reproducer
@@ -109,6 +112,9 @@ func genConnScn(t *rapid.T, prop string, excl map[string]bool) connScn {
 		s.Closers = rapid.IntRange(0, 3).Draw(t, "closers")
 		s.Detach = rapid.IntRange(0, 7).Draw(t, "detach") == 0
 		s.Observer = rapid.Bool().Draw(t, "observer")
+		if !s.Client {
+			s.Sweeper = rapid.SampledFrom([]int{0, 0, 0, 1, 2, 3}).Draw(t, "sweeper")
+		}
 		if !s.Client && (s.Closers > 0 || s.Detach) {
 			s.EarlyClose = rapid.IntRange(0, 2).Draw(t, "earlyClose") == 0
 		}
@@ -364,6 +370,20 @@ func runConn(t *rapid.T, s connScn, replay []vs.Step) *connOutcome {
 			closeIt(name)
 		})
 	}
+	if s.Sweeper > 0 {
+		w.s.Go("sweeper", false, func() {
+			vs.WaitFor(-18, func() bool { return accepted })
+			for i := 0; i < s.Sweeper; i++ {
+				vs.Yield(-19)
+				if c.isIdle() {
+					w.ev("sweep-close")
+					closeIt("sweeper")
+					return
+				}
+				w.ev("sweep-busy")
+			}
+		})
+	}
 	if s.Detach {
 		w.s.Go("detacher", false, func() {
 			vs.WaitFor(-18, func() bool { return accepted || (s.EarlyClose && prepared) })
@@ -468,7 +488,7 @@ func judgeConn(s connScn, o *connOutcome) (sig, msg string) {
 			if nclose > 1 {
 				return "fd-closed-twice", fmt.Sprintf("descriptor closed %d times | events: %s", nclose, logs)
 			}
-			if s.Closers == 0 && !o.peerClosed && !hasHandlers && nclose != 0 && w.first("user-detach") >= 0 && w.first("user-detach") < w.first("quiet") {
+			if s.Closers == 0 && s.Sweeper == 0 && !o.peerClosed && !hasHandlers && nclose != 0 && w.first("user-detach") >= 0 && w.first("user-detach") < w.first("quiet") {
 				return "detached-fd-closed", "a detached connection's descriptor was closed | events: " + logs
 			}
 		} else if nclose != 1 {
@@ -609,6 +629,9 @@ func connNontrivial(s connScn, o *connOutcome) bool {
 	switch s.Prop {
 	case "C05":
 		n := 0
+		if near("sweep-close", "peer-close", 8) || near("sweep-close", "req-", 8) || near("sweep-close", "user-close", 8) {
+			return true
+		}
 		if near("user-close", "peer-close", 8) {
 			n++
 		}
@@ -658,6 +681,12 @@ func connProperty(prop string, st *vStats) func(t *rapid.T) {
 			rep := e2Replay{Scenario: s, Strategy: o.w.strategy, Decisions: o.w.trace(), Events: o.w.names(), TraceTail: o.w.describeTrace(40)}
 			vReport(vViolation{Property: prop, Slot: "rapid:" + prop, Signature: sig, Message: msg, Replay: rep})
 			t.Fatalf("%s violated [%s]: %s\nscenario: %+v\nlast steps:\n%s", prop, sig, msg, s, o.w.describeTrace(30))
+		}
+		if o.w.count("sweep-close") > 0 {
+			st.class("sweeper-closed-idle-connection")
+		}
+		if o.w.count("sweep-busy") > 0 {
+			st.class("sweeper-found-connection-busy")
 		}
 		st.class("strategy-" + []string{"uniform", "fewpreempt", "pct"}[o.w.strategy])
 		if s.Handler != "" {
